@@ -18,8 +18,8 @@ def showMod : Mod → String
   | .control i n => s!"(c {i} {n})"
 
 def var? : Sexp → Option Var
-  | .list [n, .atom "0"] => do some ⟨← n.asNat?, false⟩
-  | .list [n, .atom "1"] => do some ⟨← n.asNat?, true⟩
+  | .list [n, .atom "0"] => do some { name := ← n.asNat?, copyable := false }
+  | .list [n, .atom "1"] => do some { name := ← n.asNat?, copyable := true }
   | _ => none
 
 def showSlot : Slot → String
@@ -36,6 +36,7 @@ def handle (line : String) : String :=
     match ms.mapM mod?, vs.mapM var? with
     | some ms, some vs =>
       let cs := (pushAll ms).control
+      let vs := capture vs
       " ".intercalate ((callArgs cs vs).map showSlot) ++ " | " ++
         " ".intercalate ((handBack cs vs).map showSlot)
     | _, _ => "bad-op"
